@@ -162,6 +162,18 @@ class C06:
                 res.fail("C06|%s|%s|%s" % ("pep552" if vt >= (3, 7) else ("pre33" if vt < (3, 3) else "33-36"), nm,
                                            "flags=%d" % (w1 & 3) if vt >= (3, 7) and w1 < 4 else ("flags-high" if vt >= (3, 7) else "")),
                          "%s header %s: %s should be %r, load_module gives %r" % (sigv, rw.hx(header), nm, exp, got))
+        if payload is not None:
+            # the header fields do not depend on whether the caller asked for the code object as well
+            try:
+                t2 = x.load.load_module(path, get_code=False)
+                for nm, exp, got in (("timestamp", ts, t2[1]), ("source_size", size, t2[5]), ("sip_hash", sip, t2[6]),
+                                     ("version", tuple(version), tuple(t2[0])), ("magic_int", g_magic, t2[2])):
+                    if exp != got:
+                        res.fail("C06|get_code=False|%s" % nm, "%s header %s: with get_code=False %s should be %r, load_module gives %r" % (
+                            sigv, rw.hx(header), nm, exp, got))
+            except Exception as e:
+                res.fail("C06|get_code=False|raised|%s" % type(e).__name__, "%s header %s: get_code=False raised %s: %s" % (
+                    sigv, rw.hx(header), type(e).__name__, e))
         if payload is not None and marker is not None:
             try:
                 consts = rw.xcanon(co.co_consts, vt < (3, 0))
